@@ -14,6 +14,8 @@ package stree
 //@ ghost field node.keys set[int]
 //@ ghost field node.desc set[ref]
 //@ ghost field node.cnt int
+//@ ghost field node.rep gmap[int]T
+//@ ghost field Tree.vals gmap[int]T
 //@ ghost field Tree.elems set[int]
 //@ role (*Tree).compare ord
 //@
@@ -27,12 +29,16 @@ package stree
 //@+     && (forall k int :: {k in x.left.keys} inK(x.left, k) ==> k < rank(cmp, x.X))
 //@+     && (forall k int :: {k in x.right.keys} inK(x.right, k) ==> k > rank(cmp, x.X))
 //@+     && !inD(x.left, x) && !inD(x.right, x)
+//@+     && x.rep[rank(cmp, x.X)] == x.X
+//@+     && (forall k int :: {x.left.rep[k]} inK(x.left, k) ==> x.rep[k] == x.left.rep[k])
+//@+     && (forall k int :: {x.right.rep[k]} inK(x.right, k) ==> x.rep[k] == x.right.rep[k])
 //@+     && (forall y ref :: {y in x.left.desc} {y in x.right.desc} !(inD(x.left, y) && inD(x.right, y)))
-//@ pred closed(y *node[T]) := (forall z *node[T] :: {z in y.desc} z in y.desc ==> (forall w ref :: {w in z.desc} w in z.desc ==> w in y.desc) && (forall k int :: {k in z.keys} k in z.keys ==> k in y.keys))
+//@ pred closed(y *node[T]) := (forall z *node[T] :: {z in y.desc} z in y.desc ==> (forall w ref :: {w in z.desc} w in z.desc ==> w in y.desc) && (forall k int :: {k in z.keys} k in z.keys ==> k in y.keys && z.rep[k] == y.rep[k]))
 //@ pred treeOK(n *node[T], cmp func(T, T) int) := n != nil ==> allocated(n) && n in n.desc
 //@+     && (forall y *node[T] :: {y in n.desc} y in n.desc ==> y != nil && allocated(y) && local(y, cmp) && closed(y))
 //@ pred treeInv(t *Tree[T]) := t != nil && treeOK(t.root, t.compare)
 //@+     && (forall k int :: {k in t.elems} k in t.elems <==> inK(t.root, k))
+//@+     && (forall k int :: {t.vals[k]} k in t.elems ==> t.vals[k] == t.root.rep[k])
 //@ pred sizeInv(t *Tree[T]) := t.size == card(t.elems) && t.size <= t.max && t.size == cntOf(t.root)
 //@
 //@ func (*Tree).Len
@@ -48,7 +54,7 @@ package stree
 //@ func (*Tree).Get
 //@   requires [C01,C04] treeInv(t)
 //@   ensures  [C01,C04] found: result.1 == (rank(t.compare, key) in t.elems)
-//@   ensures  [C01,C04] value: result.1 ==> rank(t.compare, result.0) == rank(t.compare, key)
+//@   ensures  [C01,C04] value: result.1 ==> rank(t.compare, result.0) == rank(t.compare, key) && result.0 == t.vals[rank(t.compare, key)]
 //@   ensures  [C01,C04] absent: !result.1 ==> result.0 == zero
 //@   loop 1: invariant [C01] sub: cur != nil ==> t.root != nil && cur in t.root.desc
 //@   loop 1: invariant [C01] narrowed: (rank(t.compare, key) in t.elems) <==> inK(cur, rank(t.compare, key))
@@ -56,7 +62,7 @@ package stree
 //@ func (*Tree).Min
 //@   requires [C01,C04] treeInv(t)
 //@   ensures  [C01,C04] empty: t.root == nil ==> result == zero
-//@   ensures  [C01,C04] member: t.root != nil ==> rank(t.compare, result) in t.elems
+//@   ensures  [C01,C04] member: t.root != nil ==> rank(t.compare, result) in t.elems && result == t.vals[rank(t.compare, result)]
 //@   ensures  [C01,C04] least: forall k int :: {k in t.elems} k in t.elems ==> rank(t.compare, result) <= k
 //@   loop 1: invariant [C01] sub: cur != nil && t.root != nil && cur in t.root.desc
 //@   loop 1: invariant [C01] bound: forall k int :: {k in t.elems} k in t.elems ==> k in cur.keys || k > rank(t.compare, cur.X)
@@ -64,7 +70,7 @@ package stree
 //@ func (*Tree).Max
 //@   requires [C01,C04] treeInv(t)
 //@   ensures  [C01,C04] empty: t.root == nil ==> result == zero
-//@   ensures  [C01,C04] member: t.root != nil ==> rank(t.compare, result) in t.elems
+//@   ensures  [C01,C04] member: t.root != nil ==> rank(t.compare, result) in t.elems && result == t.vals[rank(t.compare, result)]
 //@   ensures  [C01,C04] greatest: forall k int :: {k in t.elems} k in t.elems ==> rank(t.compare, result) >= k
 //@   loop 1: invariant [C01] sub: cur != nil && t.root != nil && cur in t.root.desc
 //@   loop 1: invariant [C01] bound: forall k int :: {k in t.elems} k in t.elems ==> k in cur.keys || k < rank(t.compare, cur.X)
@@ -89,7 +95,7 @@ package stree
 //@   call size#1: cmp = cmp
 //@   call size#2: cmp = cmp
 //@
-//@ spec sameNode(y *node[T]) bool := y.left == old(y.left) && y.right == old(y.right) && y.X == old(y.X) && y.keys == old(y.keys) && y.desc == old(y.desc) && y.cnt == old(y.cnt)
+//@ spec sameNode(y *node[T]) bool := y.left == old(y.left) && y.right == old(y.right) && y.X == old(y.X) && y.keys == old(y.keys) && y.desc == old(y.desc) && y.cnt == old(y.cnt) && y.rep == old(y.rep)
 //@
 // rewrite (treeToVine + vineToTree) rebuilds a subtree in place: same nodes, same keys, again a search tree. Its
 // contract is assumed here and checked by a bounded stand-in (the rotations need an in-order sequence argument).
@@ -100,8 +106,9 @@ package stree
 //@   ensures [assumed] shape: (root == nil <==> result == nil) && treeOK(result, cmp) && cntOf(result) == old(cntOf(root))
 //@   ensures [assumed] keys: forall k int :: {inK(result, k)} inK(result, k) <==> old(inK(root, k))
 //@   ensures [assumed] desc: forall y ref :: {inD(result, y)} inD(result, y) <==> old(inD(root, y))
+//@   ensures [assumed] reps: forall k int :: {result.rep[k]} inK(result, k) ==> result.rep[k] == old(root.rep[k])
 //@   ensures [assumed] frame: forall y *node[T] :: {y.left} {y.right} {y.X} {y.keys} {y.desc} old(allocated(y)) && !old(inD(root, y)) ==> sameNode(y)
-//@   modifies every(root.left), every(root.right), every(root.keys), every(root.desc), every(root.cnt)
+//@   modifies every(root.left), every(root.right), every(root.keys), every(root.desc), every(root.cnt), every(root.rep)
 //@
 //@ func (*Tree).insert
 //@   ghostret nw *node[T]
@@ -111,14 +118,17 @@ package stree
 //@   ensures  [C01] added: result.1 == !old(inK(root, rank(t.compare, key)))
 //@   ensures  [C01] desc: forall y ref :: {y in result.0.desc} y in result.0.desc <==> (old(inD(root, y)) || (nw != nil && y == nw))
 //@   ensures  [C01] new: (result.1 <==> nw != nil) && (nw != nil ==> fresh(nw))
+//@   ensures  [C01] reps: forall k int :: {result.0.rep[k]} k in result.0.keys ==> result.0.rep[k] == ite(k == rank(t.compare, key) && (replace || !old(inK(root, k))), key, old(root.rep[k]))
 //@   ensures  [C01] count: cntOf(result.0) == old(cntOf(root)) + ite(result.1, 1, 0) && (result.2 > 0 ==> result.2 == cntOf(result.0))
 //@   ensures  [C01] frame: forall y *node[T] :: {y.left} {y.right} {y.X} {y.keys} {y.desc} old(allocated(y)) && !old(inD(root, y)) ==> sameNode(y)
-//@   modifies every(root.left), every(root.right), every(root.X), every(root.keys), every(root.desc), every(root.cnt)
+//@   modifies every(root.left), every(root.right), every(root.X), every(root.keys), every(root.desc), every(root.cnt), every(root.rep)
 //@   at entry: ghost nw = nil
 //@   at return 1: ghost nw = result.0
 //@   at return 1: ghost result.0.keys = setadd(emptyset(result.0.keys), rank(t.compare, key))
 //@   at return 1: ghost result.0.desc = setadd(emptyset(result.0.desc), result.0)
 //@   at return 1: ghost result.0.cnt = 1
+//@   at return 1: ghost result.0.rep = upd(result.0.rep, rank(t.compare, key), key)
+//@   at after "root.X = key": ghost root.rep = upd(root.rep, rank(t.compare, key), key)
 //@   at after "root.left = ins": ghost nw = insert_nw
 //@   at after "root.left = ins": assert [C01] !(root in ins.desc) && !old(inD(root.left, root))
 //@   at after "root.left = ins": assert [C01] forall y *node[T] :: {y in ins.desc} y in ins.desc ==> y != root && y.left != root && y.right != root
@@ -126,6 +136,7 @@ package stree
 //@   at after "root.left = ins": ghost root.keys = setadd(root.keys, rank(t.compare, key))
 //@   at after "root.left = ins": ghost root.desc = ite(nw != nil, setadd(root.desc, nw), root.desc)
 //@   at after "root.left = ins": ghost root.cnt = root.cnt + ite(nw != nil, 1, 0)
+//@   at after "root.left = ins": ghost root.rep = upd(root.rep, rank(t.compare, key), ins.rep[rank(t.compare, key)])
 //@   at after "root.right = ins": ghost nw = insert_nw
 //@   at after "root.right = ins": assert [C01] !(root in ins.desc) && !old(inD(root.right, root))
 //@   at after "root.right = ins": assert [C01] forall y *node[T] :: {y in ins.desc} y in ins.desc ==> y != root && y.left != root && y.right != root
@@ -133,6 +144,7 @@ package stree
 //@   at after "root.right = ins": ghost root.keys = setadd(root.keys, rank(t.compare, key))
 //@   at after "root.right = ins": ghost root.desc = ite(nw != nil, setadd(root.desc, nw), root.desc)
 //@   at after "root.right = ins": ghost root.cnt = root.cnt + ite(nw != nil, 1, 0)
+//@   at after "root.right = ins": ghost root.rep = upd(root.rep, rank(t.compare, key), ins.rep[rank(t.compare, key)])
 //@   at after "root.left = ins": assert [C01] (forall w ref :: {w in ins.desc} w in ins.desc ==> w in root.desc) && (forall k int :: {k in ins.keys} k in ins.keys ==> k in root.keys)
 //@   at after "root.left = ins": assert [C01] (forall w ref :: {w in root.right.desc} inD(root.right, w) ==> w in root.desc) && (forall k int :: {k in root.right.keys} inK(root.right, k) ==> k in root.keys)
 //@   at after "root.left = ins": assert [C01] forall z *node[T] :: {z in ins.desc} z in ins.desc ==> local(z, t.compare) && closed(z)
@@ -161,29 +173,34 @@ package stree
 //@   ensures  [C01,C04] inv: treeInv(t) && sizeInv(t)
 //@   ensures  [C01,C04] set: forall k int :: {k in t.elems} k in t.elems <==> (k == rank(t.compare, key) || old(k in t.elems))
 //@   ensures  [C01,C04] result: result == !old(rank(t.compare, key) in t.elems)
-//@   modifies t.root, t.size, t.max, t.elems, every(t.root.left), every(t.root.right), every(t.root.X), every(t.root.keys), every(t.root.desc), every(t.root.cnt)
+//@   ensures  [C01,C04] vals: forall k int :: {t.vals[k]} k in t.elems ==> t.vals[k] == ite(k == rank(t.compare, key) && result, key, old(t.vals[k]))
+//@   modifies t.root, t.size, t.max, t.elems, every(t.root.left), every(t.root.right), every(t.root.X), every(t.root.keys), every(t.root.desc), every(t.root.cnt), every(t.root.rep), t.vals
 //@   at exit: ghost t.elems = setadd(t.elems, rank(t.compare, key))
+//@   at return 1: ghost t.vals = ite(result, upd(t.vals, rank(t.compare, key), key), t.vals)
 //@
 //@ func (*Tree).Replace
 //@   requires [C01,C04] treeInv(t) && sizeInv(t)
 //@   ensures  [C01,C04] inv: treeInv(t) && sizeInv(t)
 //@   ensures  [C01,C04] set: forall k int :: {k in t.elems} k in t.elems <==> (k == rank(t.compare, key) || old(k in t.elems))
 //@   ensures  [C01,C04] result: result == !old(rank(t.compare, key) in t.elems)
-//@   modifies t.root, t.size, t.max, t.elems, every(t.root.left), every(t.root.right), every(t.root.X), every(t.root.keys), every(t.root.desc), every(t.root.cnt)
+//@   ensures  [C01,C04] vals: forall k int :: {t.vals[k]} k in t.elems ==> t.vals[k] == ite(k == rank(t.compare, key), key, old(t.vals[k]))
+//@   modifies t.root, t.size, t.max, t.elems, every(t.root.left), every(t.root.right), every(t.root.X), every(t.root.keys), every(t.root.desc), every(t.root.cnt), every(t.root.rep), t.vals
 //@   at exit: ghost t.elems = setadd(t.elems, rank(t.compare, key))
+//@   at exit: ghost t.vals = upd(t.vals, rank(t.compare, key), key)
 //@
 // popMinRight detaches the leftmost node of root.right and returns it; the ghost fields of the nodes on the way down
 // all lose that node and its key. Assumed here, checked by the bounded stand-in (the spine needs a bulk ghost update).
 //@ func popMinRight
 //@   ghost cmp func(T, T) int
 //@   requires root != nil && root.right != nil && treeOK(root, cmp)
-//@   ensures [assumed] goat: result != nil && old(result in root.right.desc) && result != root && result.left == nil && result.right == nil && result.X == old(result.X)
+//@   ensures [assumed] goat: result != nil && old(result in root.right.desc) && result != root && result.left == nil && result.right == nil && result.X == old(result.X) && result.X == old(root.right.rep[rank(cmp, result.X)])
 //@   ensures [assumed] least: old(rank(cmp, result.X) in root.right.keys) && forall k int :: {old(k in root.right.keys)} old(k in root.right.keys) ==> rank(cmp, result.X) <= k
 //@   ensures [assumed] rest: treeOK(root.right, cmp) && (forall k int :: {inK(root.right, k)} inK(root.right, k) <==> old(k in root.right.keys) && k != rank(cmp, result.X))
 //@+      && (forall y ref :: {inD(root.right, y)} inD(root.right, y) <==> old(y in root.right.desc) && y != result)
-//@   ensures [assumed] top: root.left == old(root.left) && root.X == old(root.X) && root.keys == old(root.keys) && root.desc == old(root.desc) && root.cnt == old(root.cnt) && cntOf(root.right) == old(cntOf(root.right)) - 1
+//@+      && (forall k int :: {root.right.rep[k]} inK(root.right, k) ==> root.right.rep[k] == old(root.right.rep[k]))
+//@   ensures [assumed] top: root.left == old(root.left) && root.X == old(root.X) && root.keys == old(root.keys) && root.desc == old(root.desc) && root.cnt == old(root.cnt) && root.rep == old(root.rep) && cntOf(root.right) == old(cntOf(root.right)) - 1
 //@   ensures [assumed] frame: forall y *node[T] :: {y.left} {y.right} {y.X} {y.keys} {y.desc} old(allocated(y)) && !old(y in root.right.desc) && y != root ==> sameNode(y)
-//@   modifies every(root.left), every(root.right), every(root.keys), every(root.desc), every(root.cnt)
+//@   modifies every(root.left), every(root.right), every(root.keys), every(root.desc), every(root.cnt), every(root.rep)
 //@
 //@ func (*node).remove
 //@   role compare ord
@@ -193,10 +210,11 @@ package stree
 //@   ensures  [C01] keys: forall k int :: {inK(result.0, k)} inK(result.0, k) <==> old(inK(n, k)) && k != rank(compare, key)
 //@   ensures  [C01] found: result.1 == old(inK(n, rank(compare, key)))
 //@   ensures  [C01] desc: forall y ref :: {inD(result.0, y)} inD(result.0, y) <==> old(inD(n, y)) && y != gone
+//@   ensures  [C01] reps: forall k int :: {result.0.rep[k]} inK(result.0, k) ==> result.0.rep[k] == old(n.rep[k])
 //@   ensures  [C01] count: cntOf(result.0) == old(cntOf(n)) - ite(result.1, 1, 0)
 //@   ensures  [C01] gone: (result.1 <==> gone != nil) && (gone != nil ==> n != nil && gone in old(n.desc))
 //@   ensures  [C01] frame: forall y *node[T] :: {y.left} {y.right} {y.X} {y.keys} {y.desc} old(allocated(y)) && !old(inD(n, y)) ==> sameNode(y)
-//@   modifies every(n.left), every(n.right), every(n.X), every(n.keys), every(n.desc), every(n.cnt)
+//@   modifies every(n.left), every(n.right), every(n.X), every(n.keys), every(n.desc), every(n.cnt), every(n.rep)
 //@   at entry: ghost gone = nil
 //@   at after "n.left, ok = n.left.remove(key, compare)": ghost gone = remove_gone
 //@   at after "n.left, ok = n.left.remove(key, compare)": assert [C01] !(inD(n.left, n)) && !old(inD(n.left, n))
@@ -231,7 +249,8 @@ package stree
 //@   ensures  [C01,C04] inv: treeInv(t) && sizeInv(t)
 //@   ensures  [C01,C04] set: forall k int :: {k in t.elems} k in t.elems <==> old(k in t.elems) && k != rank(t.compare, key)
 //@   ensures  [C01,C04] result: result == old(rank(t.compare, key) in t.elems)
-//@   modifies t.root, t.size, t.max, t.elems, every(t.root.left), every(t.root.right), every(t.root.X), every(t.root.keys), every(t.root.desc), every(t.root.cnt)
+//@   ensures  [C01,C04] vals: forall k int :: {t.vals[k]} k in t.elems ==> t.vals[k] == old(t.vals[k])
+//@   modifies t.root, t.size, t.max, t.elems, every(t.root.left), every(t.root.right), every(t.root.X), every(t.root.keys), every(t.root.desc), every(t.root.cnt), every(t.root.rep), t.vals
 //@   at exit: ghost t.elems = setdel(t.elems, rank(t.compare, key))
 //@   call rewrite#1: cmp = t.compare
 //@
@@ -337,11 +356,13 @@ package stree
 //@   requires [C03] c != nil ==> pathOK(c)
 //@   ensures  [C03] invalid: c == nil || len(c.path) == 0 ==> !result
 //@   ensures  [C03] down: c != nil && len(c.path) != 0 && cur(c).right != nil ==> result
+//@   ensures  [C03] up: c != nil && len(c.path) != 0 && cur(c).right == nil ==> (result <==> !(forall a int, b int :: {c.path[a], c.path[b]} 0 <= a && b == a + 1 && b < len(c.path) ==> c.path[b] != c.path[a].left))
 //@
 //@ func (*Cursor).HasPrev
 //@   requires [C03] c != nil ==> pathOK(c)
 //@   ensures  [C03] invalid: c == nil || len(c.path) == 0 ==> !result
 //@   ensures  [C03] down: c != nil && len(c.path) != 0 && cur(c).left != nil ==> result
+//@   ensures  [C03] up: c != nil && len(c.path) != 0 && cur(c).left == nil ==> (result <==> !(forall a int, b int :: {c.path[a], c.path[b]} 0 <= a && b == a + 1 && b < len(c.path) ==> c.path[b] != c.path[a].right))
 //@
 //@ func (*Cursor).Next
 //@   requires [C03] c != nil ==> pathOK(c)
